@@ -59,6 +59,10 @@ def oracle_lockfam(run):
                     return "handle is %s although the lock was %s" % ("non-null" if nn else "null", "obtained" if last_ok[tid] else "not obtained")
             elif not nn:
                 return "locking disabled but the acquisition returned a null handle"
+        elif k == "hfree":
+            if enabled and mode.get(tid):
+                return ("leaked lock: thread %d still holds the mutex (%s) although every handle that could own it has been "
+                        "destroyed, unlock()-ed, moved from or assigned over" % (tid, mode.get(tid)))
         elif k == "he" and len(t) > 1:
             if t[1] != "0":
                 return "handle still non-null after unlock()"
